@@ -12,6 +12,7 @@ import FB.Backups
 import FB.Overlay
 import FB.Rollback
 import FB.MakeDirs
+import FB.MakeRoom
 import FB.Conc
 open FB FB.Wire
 open Lean (Json)
@@ -468,6 +469,21 @@ def runMD (j : Lean.Json) : Except String Lean.Json := do
   | .ok st => return showSt st "ok"
   | .error st => return showSt st "OSError"
 
+/-- `_make_room` (`FB.MakeRoom`): the directory to clear, and which paths exist in the virtual tree -/
+def runMR (j : Lean.Json) : Except String Lean.Json := do
+  let fs ← parseTree (← j.getObjVal? "tree")
+  let d := parsePath (← (← j.getObjVal? "dir").getStr?)
+  let virtDirs ← getPaths (← j.getObjVal? "virtDirs")
+  let virtFiles ← getPaths (← j.getObjVal? "virtFiles")
+  let showSt (st : FB.MakeRoom.St) (kind : String) : Lean.Json := Json.mkObj [
+    ("outcome", .str kind), ("tree", showTree st.fs),
+    ("saved", .arr (st.bk.saved.map fun (p, e) => match e with
+        | .file c m => Lean.Json.arr #[.str (showPath p), .str c, .num (.fromNat m)]
+        | .dir => Lean.Json.arr #[.str (showPath p), .str "dir"]).toArray)]
+  match FB.MakeRoom.makeRoom (fun p => virtDirs.contains p) (fun p => virtFiles.contains p) 64 { fs := fs, bk := {} } d with
+  | .ok st => return showSt st "ok"
+  | .error st => return showSt st "IsADirectoryError"
+
 def handle (line : String) : Lean.Json :=
   match Lean.Json.parse line with
   | .error e => Json.mkObj [("bad-op", .str e)]
@@ -486,6 +502,7 @@ def handle (line : String) : Lean.Json :=
       | "ov" => runOV j
       | "rb" => runRB j
       | "md" => runMD j
+      | "mr" => runMR j
       | k => throw s!"unknown kind {k}"
     match r with
     | .ok out => out.setObjVal! "id" id
